@@ -1466,20 +1466,32 @@ void DOMLSSerializerImpl::procCdataSection(const XMLCh*   const nodeValue
 
     XMLCh* curPtr  = (XMLCh*) repNodeValue;
     XMLCh* nextPtr = 0;
+    XMLCh* cutPtr  = 0;
+    XMLCh  cutCh   = chNull;
     int    endTagPos = -1;
 
     bool   endTagFound = true;
 
     while (endTagFound)
     {
+        bool emptyPiece = false;
         endTagPos = XMLString::patternMatch(curPtr, gEndCDATA);
         if (endTagPos != -1)
         {
-            nextPtr = curPtr + endTagPos + offset;  // skip the ']]>'
-            *(curPtr + endTagPos) = chNull;         //nullify the first ']'
-            if (XMLSize_t(endTagPos) != len)
+            //
+            //  A ']]>' inside the value is cut between ']]' and '>' so that both
+            //  halves stay in the output; the one we appended ends the last piece.
+            //
+            const bool      nested = (XMLSize_t(endTagPos) != len);
+            const XMLSize_t keep   = nested ? 2 : 0;
+            cutPtr  = curPtr + endTagPos + keep;
+            nextPtr = nested ? cutPtr : cutPtr + offset;
+            cutCh   = *cutPtr;
+            *cutPtr = chNull;
+            if (nested)
                 reportError(nodeToWrite, DOMError::DOM_SEVERITY_WARNING, XMLDOMMsg::Writer_NestedCDATA);
-            len = len - endTagPos - offset;
+            len = len - endTagPos - (nested ? keep : offset);
+            emptyPiece = (cutPtr == curPtr);
         }
         else
         {
@@ -1487,9 +1499,9 @@ void DOMLSSerializerImpl::procCdataSection(const XMLCh*   const nodeValue
         }
 
         /***
-            to check ]]>]]>
+            an empty section
         ***/
-        if (endTagPos == 0)
+        if (emptyPiece)
         {
             TRY_CATCH_THROW
             (
@@ -1503,7 +1515,7 @@ void DOMLSSerializerImpl::procCdataSection(const XMLCh*   const nodeValue
 
         if (endTagFound)
         {
-            *(nextPtr - offset) = chCloseSquare;   //restore the first ']'
+            *cutPtr = cutCh;                       //restore the character we cut at
             curPtr = nextPtr;
         }
     }
